@@ -408,3 +408,84 @@ def k_filter(p):
 
 
 KINDS.update({"filter": k_filter})
+
+
+def k_shuffles(p):
+    """C18(a): table shape / permutation rows / reproducibility on the real numpy RNG."""
+    import dsw
+    k, seed = int(p["k"]), p.get("seed")
+    np.random.seed(12345)
+    t1, ex = call(dsw.create_random_shuffles, k, seed)
+    if ex is not None:
+        return True, "create_random_shuffles(%d, %r) raised %s" % (k, seed, ex)
+    if t1.shape != (4 ** k, 4):
+        return True, "table of shape %s" % (t1.shape,)
+    for i, row in enumerate(t1.tolist()):
+        if sorted(row) != [0, 1, 2, 3]:
+            return True, "row %d = %s is not a permutation of 0..3" % (i, row)
+    np.random.seed(999)
+    np.random.random(7)
+    t2, ex = call(dsw.create_random_shuffles, k, seed)
+    if seed is not None and (ex is not None or (t1 != t2).any()):
+        return True, "same seed %r gave different tables from different global random states" % (seed,)
+    t3, ex = call(dsw.create_random_shuffles, k, seed, True)
+    np.random.seed(999)
+    np.random.random(7)
+    t4, ex4 = call(dsw.create_random_shuffles, k, seed, True)
+    if ex is not None or ex4 is not None:
+        return True, "verbose=True raised %s / %s" % (ex, ex4)
+    if seed is not None and (t3 != t1).any():
+        return True, "verbose=True changes the table"
+    return False, "ok"
+
+
+KINDS.update({"shuffles": k_shuffles})
+
+
+def k_e2e(p):
+    """C02 end to end: build the graph for the filter with the real generator, encode, and judge every window."""
+    import dsw
+    k, t = int(p["k"]), int(p["t"])
+    if p.get("config") is not None:
+        c = p["config"]
+        f = dsw.LocalBioFilter(observed_length=k, max_homopolymer_runs=c.get("runs"), gc_range=c.get("gc"), undesired_motifs=c.get("motifs"))
+        judge = lambda w: bool(f.valid(w))
+    else:
+        acc_set = set(p["accepted"])
+
+        class F(dsw.DefaultBioFilter):
+            def __init__(self):
+                super().__init__(screen_name="user")
+
+            def valid(self, dna_string):
+                return dna_string in acc_set
+        f = F()
+        judge = lambda w: w in acc_set
+    try:
+        mask = dsw.find_vertices(k, f)
+        vs, acc = dsw.connect_coding_graph(k, mask, t)
+    except ValueError as ex:
+        return False, "no graph: %s" % ex
+    bits = np.array(p["bits"], dtype=int)
+    table = np.array(p["table"], dtype=int) if p.get("table") is not None else None
+    start = int(p["start"])
+    if not (np.array(acc[start]) >= 0).any():
+        return False, "start vertex not retained"
+    r, ex = call(dsw.encode, bits, acc, start, is_faster=bool(p.get("fast")), shuffles=table)
+    if ex is not None:
+        if "Not implementation" in ex:
+            return False, "out-degree 3 in fast mode"
+        return True, "encode failed on the generated graph: %s" % ex
+    text = kmer(start, k) + r
+    for i in range(len(r) + 1):
+        w = text[i:i + k]
+        if not judge(w):
+            return True, "window %r (position %d) of %r + %r fails the filter" % (w, i, kmer(start, k), r)
+    if p.get("config") is not None:
+        for s, nm in ((r, "strand alone"), (text, "start k-mer + strand")):
+            if not f.valid(s, only_last=False):
+                return True, "whole-sequence check fails on the %s %r" % (nm, s)
+    return False, "strand %r obeys the filter" % r
+
+
+KINDS.update({"e2e": k_e2e})
